@@ -23,4 +23,4 @@ def run(A, rep, tier):
     E.rule_ex3(A, rep, X)
     E.rule_ex4(A, rep, X)
     E.rule_ex5(A, rep, X)
-    E.rule_ex6(A, rep, X)
+    E.rule_ex6(A, rep, X, stop_rules=False)
